@@ -3,7 +3,8 @@ from __future__ import annotations
 
 INTS = ["a", "b", "c", "d"]
 BOOLS = ["p", "q"]
-BIN = {"add": "+", "sub": "-", "mul": "*"}
+BIN = {"add": "+", "sub": "-", "mul": "*", "band": "&", "bor": "|", "bxor": "^"}
+BIT = ["band", "bor", "bxor"]
 CMP = {"lt": "<", "le": "<=", "gt": ">", "ge": ">=", "eq": "==", "ne": "!="}
 
 
@@ -22,9 +23,12 @@ class G:
         r = self.rng
         if d <= 0 or r.random() < 0.3:
             return r.choice([("i", r.randint(0, 9)), ("v", r.choice(names))]) if names else ("i", r.randint(0, 9))
-        k = r.choice(["bin", "bin", "bin", "neg", "ite", "leaf"])
+        k = r.choice(["bin", "bin", "bin", "neg", "ite", "leaf", "bbit"])
         if k == "bin":
             return ("bin", r.choice(list(BIN)), self.int_expr(d - 1, names), self.int_expr(d - 1, names))
+        if k == "bbit":
+            # `& | ^` of two bools is a bool in Python and an int in C++: used as an operand of arithmetic, where both are the int
+            return ("bin", r.choice(["add", "sub", "mul"]), ("bin", r.choice(BIT), self.bool_expr(d - 1, names), self.bool_expr(d - 1, names)), self.int_expr(d - 1, names))
         if k == "neg":
             return ("neg", self.int_expr(d - 1, names))
         if k == "ite":
@@ -38,7 +42,7 @@ class G:
             if bnames and r.random() < 0.5:
                 return ("v", r.choice(bnames))
             return ("cmp", r.choice(list(CMP)), self.int_expr(0, names), self.int_expr(0, names))
-        k = r.choice(["cmp", "cmp", "and", "or", "not", "lit"] + (["chain"] * 6 if self.chains else []))
+        k = r.choice(["cmp", "cmp", "and", "or", "not", "lit", "nbit"] + (["chain"] * 6 if self.chains else []))
         inames = [n for n in names if n not in BOOLS]
         if k == "chain":
             return ("chain", r.choice(list(CMP)), r.choice(list(CMP)), self.int_expr(d - 1, inames), self.int_expr(d - 1, inames), self.int_expr(d - 1, inames))
@@ -48,6 +52,8 @@ class G:
             return (k, self.bool_expr(d - 1, names), self.bool_expr(d - 1, names))
         if k == "not":
             return ("not", self.bool_expr(d - 1, names))
+        if k == "nbit":
+            return ("not", ("bin", r.choice(BIT), self.bool_expr(d - 1, names), self.bool_expr(d - 1, names)))
         return ("b", r.random() < 0.5)
 
     # ---- statements
